@@ -98,6 +98,12 @@ bool index_read(zckCtx *zck, char *data, size_t size, size_t max_length) {
 
         /* Read uncompressed entry digest, if any */
         if (zck->has_uncompressed_source) {
+            if(length + zck->index.digest_size > max_length) {
+                set_fatal_error(zck, "Read past end of header");
+                free(new->digest);
+                free(new);
+                return false;
+            }
             /* same size for digest as compressed */
             new->digest_uncompressed = zmalloc(zck->index.digest_size);
             if (!new->digest_uncompressed) {
@@ -145,6 +151,17 @@ bool index_read(zckCtx *zck, char *data, size_t size, size_t max_length) {
         else
             zck->index.first = new;
         prev = new;
+    }
+    /* There is always at least one entry (the dict, even if it's empty), and
+     * the number of entries must be what the index says it is */
+    if(count == 0) {
+        set_fatal_error(zck, "Index doesn't contain any chunks");
+        return false;
+    }
+    if((size_t)count != index_count) {
+        set_fatal_error(zck, "Index claims %llu chunks, but contains %i",
+                        (long long unsigned) index_count, count);
+        return false;
     }
     free(zck->index_string);
     zck->index_string = NULL;
